@@ -9,7 +9,7 @@ use serde::ser::{self, Serialize, SerializeSeq, SerializeTuple, Serializer};
 
 use crate::chk::Tab;
 use crate::cover;
-use crate::gen::{state, Pre, Tables};
+use crate::gen::{iota, state_keys, Pre, Tables};
 use crate::q::Q;
 use crate::step::{post, ALL};
 use crate::sym;
@@ -38,7 +38,8 @@ pub const MAXL: usize = 8;
 // ---------------------------------------------------------------- deserializer side
 #[derive(Clone, Copy)]
 pub struct Pairs {
-    pub items: [(u16, u8); MAXL],
+    /// (key, payload, priority)
+    pub items: [(u8, u8, u8); MAXL],
     pub len: usize,
     pub hint: Option<usize>,
 }
@@ -48,13 +49,19 @@ struct SeqAcc {
     p: Pairs,
     pos: usize,
 }
-struct PairDe(u16, u8);
+struct PairDe(u8, u8, u8);
 struct PairAcc {
-    a: u16,
-    b: u8,
+    k: u8,
+    pay: u8,
+    prio: u8,
     pos: u8,
 }
-struct U16De(u16);
+struct ItemDe(u8, u8);
+struct ItemAcc {
+    k: u8,
+    pay: u8,
+    pos: u8,
+}
 struct U8De(u8);
 
 macro_rules! reject {
@@ -99,9 +106,9 @@ impl<'de> SeqAccess<'de> for SeqAcc {
     type Error = Err;
     fn next_element_seed<S: DeserializeSeed<'de>>(&mut self, seed: S) -> Result<Option<S::Value>, Err> {
         if self.pos < self.p.len {
-            let (a, b) = self.p.items[self.pos];
+            let (k, pay, prio) = self.p.items[self.pos];
             self.pos += 1;
-            seed.deserialize(PairDe(a, b)).map(Some)
+            seed.deserialize(PairDe(k, pay, prio)).map(Some)
         } else {
             Ok(None)
         }
@@ -114,7 +121,7 @@ impl<'de> SeqAccess<'de> for SeqAcc {
 impl<'de> Deserializer<'de> for PairDe {
     type Error = Err;
     fn deserialize_any<V: Visitor<'de>>(self, v: V) -> Result<V::Value, Err> {
-        v.visit_seq(PairAcc { a: self.0, b: self.1, pos: 0 })
+        v.visit_seq(PairAcc { k: self.0, pay: self.1, prio: self.2, pos: 0 })
     }
     fn deserialize_seq<V: Visitor<'de>>(self, v: V) -> Result<V::Value, Err> {
         self.deserialize_any(v)
@@ -148,8 +155,8 @@ impl<'de> SeqAccess<'de> for PairAcc {
     fn next_element_seed<S: DeserializeSeed<'de>>(&mut self, seed: S) -> Result<Option<S::Value>, Err> {
         self.pos += 1;
         match self.pos {
-            1 => seed.deserialize(U16De(self.a)).map(Some),
-            2 => seed.deserialize(U8De(self.b)).map(Some),
+            1 => seed.deserialize(ItemDe(self.k, self.pay)).map(Some),
+            2 => seed.deserialize(U8De(self.prio)).map(Some),
             _ => Ok(None),
         }
     }
@@ -158,34 +165,53 @@ impl<'de> SeqAccess<'de> for PairAcc {
     }
 }
 
-macro_rules! prim_de {
-    ($t:ident, $m:ident, $visit:ident) => {
-        impl<'de> Deserializer<'de> for $t {
-            type Error = Err;
-            fn deserialize_any<V: Visitor<'de>>(self, v: V) -> Result<V::Value, Err> {
-                v.$visit(self.0)
-            }
-            fn $m<V: Visitor<'de>>(self, v: V) -> Result<V::Value, Err> {
-                v.$visit(self.0)
-            }
-            serde::forward_to_deserialize_any! {
-                bool i8 i16 i32 i64 u32 u64 f32 f64 char str string bytes byte_buf option unit
-                unit_struct newtype_struct seq tuple tuple_struct map struct enum identifier ignored_any
-            }
-        }
-    };
-}
-// the macro above forwards the *other* small integer type to deserialize_any as well
-impl<'de> Deserializer<'de> for U16De {
+impl<'de> Deserializer<'de> for ItemDe {
     type Error = Err;
     fn deserialize_any<V: Visitor<'de>>(self, v: V) -> Result<V::Value, Err> {
-        v.visit_u16(self.0)
+        v.visit_seq(ItemAcc { k: self.0, pay: self.1, pos: 0 })
     }
-    serde::forward_to_deserialize_any! {
-        bool i8 i16 i32 i64 u8 u16 u32 u64 f32 f64 char str string bytes byte_buf option unit
-        unit_struct newtype_struct seq tuple tuple_struct map struct enum identifier ignored_any
+    fn deserialize_seq<V: Visitor<'de>>(self, v: V) -> Result<V::Value, Err> {
+        self.deserialize_any(v)
+    }
+    fn deserialize_tuple<V: Visitor<'de>>(self, _l: usize, v: V) -> Result<V::Value, Err> {
+        self.deserialize_any(v)
+    }
+    reject!(deserialize_bool deserialize_i8 deserialize_i16 deserialize_i32 deserialize_i64
+        deserialize_u8 deserialize_u16 deserialize_u32 deserialize_u64 deserialize_f32 deserialize_f64
+        deserialize_char deserialize_str deserialize_string deserialize_bytes deserialize_byte_buf
+        deserialize_option deserialize_unit deserialize_map deserialize_identifier deserialize_ignored_any);
+    fn deserialize_unit_struct<V: Visitor<'de>>(self, _n: &'static str, _v: V) -> Result<V::Value, Err> {
+        Result::Err(Err)
+    }
+    fn deserialize_newtype_struct<V: Visitor<'de>>(self, _n: &'static str, _v: V) -> Result<V::Value, Err> {
+        Result::Err(Err)
+    }
+    fn deserialize_tuple_struct<V: Visitor<'de>>(self, _n: &'static str, _l: usize, _v: V) -> Result<V::Value, Err> {
+        Result::Err(Err)
+    }
+    fn deserialize_struct<V: Visitor<'de>>(self, _n: &'static str, _f: &'static [&'static str], _v: V) -> Result<V::Value, Err> {
+        Result::Err(Err)
+    }
+    fn deserialize_enum<V: Visitor<'de>>(self, _n: &'static str, _f: &'static [&'static str], _v: V) -> Result<V::Value, Err> {
+        Result::Err(Err)
     }
 }
+
+impl<'de> SeqAccess<'de> for ItemAcc {
+    type Error = Err;
+    fn next_element_seed<S: DeserializeSeed<'de>>(&mut self, seed: S) -> Result<Option<S::Value>, Err> {
+        self.pos += 1;
+        match self.pos {
+            1 => seed.deserialize(U8De(self.k)).map(Some),
+            2 => seed.deserialize(U8De(self.pay)).map(Some),
+            _ => Ok(None),
+        }
+    }
+    fn size_hint(&self) -> Option<usize> {
+        Some(2 - self.pos as usize)
+    }
+}
+
 impl<'de> Deserializer<'de> for U8De {
     type Error = Err;
     fn deserialize_any<V: Visitor<'de>>(self, v: V) -> Result<V::Value, Err> {
@@ -206,14 +232,24 @@ pub struct Collect {
 /// serializer for the queue: accepts exactly one sequence
 pub struct QSer<'a>(pub &'a mut Collect);
 /// serializer for one element: accepts exactly one 2-tuple of (u16, u8)
-struct ElemSer<'a>(&'a mut (u16, u8));
+struct ElemSer<'a>(&'a mut (u8, u8, u8));
 struct ElemTuple<'a> {
-    slot: &'a mut (u16, u8),
+    slot: &'a mut (u8, u8, u8),
     pos: u8,
 }
-struct PrimSer<'a> {
-    slot: &'a mut (u16, u8),
+/// position 0: the item (a 2-tuple of u8), position 1: the priority (u8)
+struct PartSer<'a> {
+    slot: &'a mut (u8, u8, u8),
     pos: u8,
+}
+struct ItemTuple<'a> {
+    slot: &'a mut (u8, u8, u8),
+    pos: u8,
+}
+/// one byte of the item: field 0 = key, field 1 = payload
+struct ByteSer<'a> {
+    slot: &'a mut (u8, u8, u8),
+    field: u8,
 }
 
 macro_rules! ser_reject {
@@ -271,7 +307,7 @@ impl<'a> SerializeSeq for QSeq<'a> {
         if self.0.out.len >= MAXL {
             return Result::Err(Err);
         }
-        let mut slot = (0u16, 0u8);
+        let mut slot = (0u8, 0u8, 0u8);
         v.serialize(ElemSer(&mut slot))?;
         let l = self.0.out.len;
         self.0.out.items[l] = slot;
@@ -307,7 +343,7 @@ impl<'a> SerializeTuple for ElemTuple<'a> {
     fn serialize_element<T: ?Sized + Serialize>(&mut self, v: &T) -> Result<(), Err> {
         let pos = self.pos;
         self.pos += 1;
-        v.serialize(PrimSer { slot: self.slot, pos })
+        v.serialize(PartSer { slot: self.slot, pos })
     }
     fn end(self) -> Result<(), Err> {
         if self.pos == 2 {
@@ -318,27 +354,64 @@ impl<'a> SerializeTuple for ElemTuple<'a> {
     }
 }
 
-impl<'a> Serializer for PrimSer<'a> {
+impl<'a> Serializer for PartSer<'a> {
     type Ok = ();
     type Error = Err;
     type SerializeSeq = ser::Impossible<(), Err>;
-    type SerializeTuple = ser::Impossible<(), Err>;
+    type SerializeTuple = ItemTuple<'a>;
     ser_rest!();
-    fn serialize_u16(self, v: u16) -> Result<(), Err> {
-        if self.pos == 0 {
-            self.slot.0 = v;
+    ser_reject!(serialize_u16(u16));
+    fn serialize_u8(self, v: u8) -> Result<(), Err> {
+        if self.pos == 1 {
+            self.slot.2 = v;
             Ok(())
         } else {
             Result::Err(Err)
         }
     }
-    fn serialize_u8(self, v: u8) -> Result<(), Err> {
-        if self.pos == 1 {
-            self.slot.1 = v;
+    fn serialize_seq(self, _l: Option<usize>) -> Result<Self::SerializeSeq, Err> {
+        Result::Err(Err)
+    }
+    fn serialize_tuple(self, l: usize) -> Result<ItemTuple<'a>, Err> {
+        if self.pos == 0 && l == 2 {
+            Ok(ItemTuple { slot: self.slot, pos: 0 })
+        } else {
+            Result::Err(Err)
+        }
+    }
+}
+
+impl<'a> SerializeTuple for ItemTuple<'a> {
+    type Ok = ();
+    type Error = Err;
+    fn serialize_element<T: ?Sized + Serialize>(&mut self, v: &T) -> Result<(), Err> {
+        let field = self.pos;
+        self.pos += 1;
+        v.serialize(ByteSer { slot: self.slot, field })
+    }
+    fn end(self) -> Result<(), Err> {
+        if self.pos == 2 {
             Ok(())
         } else {
             Result::Err(Err)
         }
+    }
+}
+
+impl<'a> Serializer for ByteSer<'a> {
+    type Ok = ();
+    type Error = Err;
+    type SerializeSeq = ser::Impossible<(), Err>;
+    type SerializeTuple = ser::Impossible<(), Err>;
+    ser_rest!();
+    ser_reject!(serialize_u16(u16));
+    fn serialize_u8(self, v: u8) -> Result<(), Err> {
+        match self.field {
+            0 => self.slot.0 = v,
+            1 => self.slot.1 = v,
+            _ => return Result::Err(Err),
+        }
+        Ok(())
     }
     fn serialize_seq(self, _l: Option<usize>) -> Result<Self::SerializeSeq, Err> {
         Result::Err(Err)
@@ -355,10 +428,12 @@ impl<T: Q + Serialize + for<'de> serde::Deserialize<'de>> QSerde for T {}
 /// serialize a queue of N elements, deserialize as `D` (either kind): equal contents,
 /// correctly ordered, usable
 pub fn roundtrip<S: QSerde, D: QSerde, const N: usize>(with_hint: bool) {
-    let (q, gh) = state::<S, N>(Pre::Inv, Tables::Any);
+    // concrete keys (0..N in a symbolic arrangement): presence tests during deserialization
+    // stay concrete, and with them the table lengths
+    let (q, gh) = state_keys::<S, N>(Pre::Inv, Tables::Any, iota::<N>());
     let want = Tab::of_ghost(&gh);
     let mut c = Collect {
-        out: Pairs { items: [(0, 0); MAXL], len: 0, hint: None },
+        out: Pairs { items: [(0, 0, 0); MAXL], len: 0, hint: None },
         declared: None,
     };
     let r = q.serialize(QSer(&mut c));
@@ -384,34 +459,51 @@ pub fn roundtrip<S: QSerde, D: QSerde, const N: usize>(with_hint: bool) {
 /// ordered queue holding every distinct item once with one of the priorities given for
 /// it; never a panic
 pub fn arbitrary<D: QSerde, const L: usize, const SEQ: u32>(with_hint: bool) {
-    let mut p = Pairs { items: [(0, 0); MAXL], len: L, hint: if with_hint { Some(L) } else { None } };
-    let mut first = Tab::empty();
-    let mut want = Tab::empty();
+    let mut p = Pairs { items: [(0, 0, 0); MAXL], len: L, hint: if with_hint { Some(L) } else { None } };
+    let mut keys: u16 = 0;
+    let mut distinct = 0usize;
     let mut j = 0;
     while j < L {
         let k = crate::bulk::key_of(SEQ, j);
-        let pay = sym::u8();
-        let prio = sym::u8();
-        p.items[j] = (((k as u16) << 8) | pay as u16, prio);
-        if !first.has(k) {
-            first.set(k, pay, prio);
+        p.items[j] = (k, sym::u8(), sym::u8());
+        if keys & (1u16 << k) == 0 {
+            keys |= 1u16 << k;
+            distinct += 1;
         }
-        want.set(k, pay, prio);
-        j += 1;
-    }
-    // acceptable contents: per key, the first or the last pair given (for L <= 3 a key
-    // occurs at most... every occurrence is first, last, or -- for "aaa" -- the middle one)
-    let mut j = 0;
-    while j < L {
-        let k = crate::bulk::key_of(SEQ, j);
-        let (fp, fr) = first.get(k).unwrap();
-        want.allow(k, fp, fr);
         j += 1;
     }
     match D::deserialize(SeqDe(p)) {
         Result::Err(_) => {}
         Ok(mut d) => {
-            post(&mut d, &want, ALL);
+            // every distinct item once, with one of the priorities given for it (and one
+            // of the item values given for it); the length agrees with the contents
+            crate::chk::assert_inv(&d);
+            assert!(d.len() == distinct, "SERDE: len() is the number of distinct items of the sequence");
+            let mut seen: u16 = 0;
+            let mut s = 0;
+            while s < d.s_map_len() {
+                let (i, pr) = d.s_slot(s).unwrap();
+                assert!(i.key < 16 && keys & (1u16 << i.key) != 0, "SERDE: stored item occurs in the sequence");
+                assert!(seen & (1u16 << i.key) == 0, "SERDE: every distinct item is stored once");
+                seen |= 1u16 << i.key;
+                let mut prio_ok = false;
+                let mut pay_ok = false;
+                let mut j = 0;
+                while j < L {
+                    if p.items[j].0 == i.key {
+                        prio_ok |= p.items[j].2 == pr.0;
+                        pay_ok |= p.items[j].1 == i.pay;
+                    }
+                    j += 1;
+                }
+                assert!(prio_ok, "SERDE: stored priority is one of those given for the item");
+                assert!(pay_ok, "SERDE: stored item value is one of those given for the item");
+                s += 1;
+            }
+            assert!(seen == keys, "SERDE: every distinct item of the sequence is stored");
+            crate::step::assert_peek_extreme(&d);
+            let top = d.pop_hi();
+            assert!(top.is_some() == (distinct > 0), "SERDE: the deserialized queue is usable");
             cover!(true, "deserialization succeeded");
         }
     }
